@@ -154,6 +154,7 @@ fn main() {
                 };
                 let mut snaps: Vec<Snap> = vec![];
                 let mut level_obs: Vec<String> = vec![];
+                let mut merge_obs: Vec<String> = vec![];
                 let mut max_levels = 1usize;
                 let mut concurrent = false;
                 let mut reindexed = false;
@@ -190,11 +191,41 @@ fn main() {
                         for m in k + half..k + size {
                             write(tx2.repo_mut(), &mut commits, &mut last_cid, m);
                         }
-                        tx1.commit("c18 a").block_on().unwrap();
+                        let known0 = known(&commits[..k]);
+                        let repo1 = tx1.commit("c18 a").block_on().unwrap();
                         // operation heads are merged in the order of their end times (ms)
                         std::thread::sleep(std::time::Duration::from_millis(3));
-                        tx2.commit("c18 b").block_on().unwrap();
+                        let repo2 = tx2.commit("c18 b").block_on().unwrap();
                         repo = repo.reload_at_head().block_on().unwrap();
+                        // the three indexes as (node number, parent positions) by position
+                        let node_of: std::collections::HashMap<CommitId, usize> = known(&commits)
+                            .iter()
+                            .enumerate()
+                            .map(|(j, id)| (id.clone(), j))
+                            .collect();
+                        let flat_of = |r: &Arc<ReadonlyRepo>, ids: &[CommitId]| -> (String, Vec<usize>) {
+                            let order = dagrepo::index_order(r, ids);
+                            let (g, _) = dagrepo::graph_of(r.as_ref(), &order);
+                            let nodes: Vec<usize> = order.iter().map(|id| node_of[id]).collect();
+                            let s = g
+                                .iter()
+                                .zip(&nodes)
+                                .map(|(ps, nd)| format!("({nd}%N, {})", dagrepo::coq_nats(ps)))
+                                .collect::<Vec<_>>()
+                                .join("; ");
+                            (format!("[{s}]"), nodes)
+                        };
+                        let mut ids1 = known0.clone();
+                        ids1.extend(commits[k..k + half].iter().map(|c| c.id().clone()));
+                        let mut ids2 = known0.clone();
+                        ids2.extend(commits[k + half..k + size].iter().map(|c| c.id().clone()));
+                        let (own, _) = flat_of(&repo1, &ids1);
+                        let (other, _) = flat_of(&repo2, &ids2);
+                        let (_, merged) = flat_of(&repo, &known(&commits));
+                        merge_obs.push(format!(
+                            "({own}, {other}, [{}])",
+                            merged.iter().map(|x| format!("{x}%N")).collect::<Vec<_>>().join("; ")
+                        ));
                     } else {
                         let before: Vec<usize> = levels(&repo).iter().map(|&x| x as usize).collect();
                         let mut tx = repo.start_transaction();
@@ -286,16 +317,17 @@ fn main() {
                     let order = dagrepo::index_order(&re, &known(&commits));
                     snaps.push(snapshot(re.as_ref(), Some(&re), order, &mut rng, 6));
                 }
-                (snaps, level_obs, files, max_levels, concurrent, reindexed)
+                (snaps, level_obs, merge_obs, files, max_levels, concurrent, reindexed)
             });
             let (term, nontrivial, shape_s) = match res {
-                Some((snaps, level_obs, files, max_levels, concurrent, reindexed)) => {
+                Some((snaps, level_obs, merge_obs, files, max_levels, concurrent, reindexed)) => {
                     let n_max = snaps.iter().map(|s| s.n).max().unwrap_or(0);
                     let merges = snaps.iter().map(|s| s.merges).max().unwrap_or(0);
                     let nq: usize = snaps.iter().map(|s| s.queries).sum();
                     let term = format!(
-                        "(mk_case [{}] [{}] [{}] false)%nat",
+                        "(mk_case [{}] [{}] [{}] [{}] false)%nat",
                         snaps.iter().map(|s| s.term.clone()).collect::<Vec<_>>().join("; "),
+                        merge_obs.join("; "),
                         level_obs.join("; "),
                         files.join("; ")
                     );
@@ -311,7 +343,7 @@ fn main() {
                 }
                 None => {
                     ctx.panicked();
-                    ("(mk_case [] [] [] true)".to_string(), false, "panic".to_string())
+                    ("(mk_case [] [] [] [] true)".to_string(), false, "panic".to_string())
                 }
             };
             ctx.emit(i, term, nontrivial, shape_s.trim());
